@@ -56,7 +56,7 @@ Record state := {
 
 Definition init_state : state :=
   {| s_watched := tconst None; s_version := tconst ""; s_nonce := tconst ""; s_table := [];
-     s_cache := tconst []; s_has_cache := tconst false; s_meta := tconst []; s_now := 0; s_stream := 0; s_sender_ok := true; s_closed := false |}.
+     s_cache := tconst []; s_has_cache := tconst false; s_meta := tconst []; s_now := 1000000; s_stream := 0; s_sender_ok := true; s_closed := false |}.
 
 Definition watched_names (s : state) (t : rtype) : list string :=
   match tget t (s_watched s) with Some l => l | None => [] end.
@@ -252,6 +252,7 @@ Inductive op :=
 | ORecvErr (auth : bool)
 | OSendErr
 | OTick (d : N)
+| OBackdate (t : rtype) (n : string) (d : N)                (* test device: shift the recorded access time of an entry into the past *)
 | OSweep.
 
 Record out := { o_reqs : list (N * request); o_lookup : option lookup_result; o_updates : list update }.
@@ -288,6 +289,14 @@ Definition step (c : scfg) (o : oracle) (s : state) (x : op) : state * out :=
                       else let '(s1, rq) := reconnect s in (s1, {| o_reqs := rq; o_lookup := None; o_updates := [] |})
   | OSendErr => (if s_closed s then s else send_fails s, no_out)
   | OTick d => (tick s d, no_out)
+  | OBackdate t n d =>
+      (match aget n (tget t (s_meta s)) with
+       | None => s
+       | Some tm =>
+           {| s_watched := s_watched s; s_version := s_version s; s_nonce := s_nonce s; s_table := s_table s; s_cache := s_cache s;
+              s_has_cache := s_has_cache s; s_meta := tset t (aset n (tm - d) (tget t (s_meta s))) (s_meta s); s_now := s_now s;
+              s_stream := s_stream s; s_sender_ok := s_sender_ok s; s_closed := s_closed s |}
+       end, no_out)
   | OSweep => let '(s1, rq) := sweep s in (s1, {| o_reqs := rq; o_lookup := None; o_updates := [] |})
   end.
 
